@@ -7,6 +7,7 @@ CONSTANTS
   Nest = FALSE
   MaxDel = 2
   Merge = FALSE
+  Script <- NoScript
   Dups = FALSE
   MaxSnaps = 2
 SPECIFICATION SpecS
